@@ -122,6 +122,10 @@ class Alg:
         return self.simplify(a - b).is_zero()
 
 
+def _names(e) -> set:
+    return {n.id for n in ast.walk(e) if isinstance(n, ast.Name)}
+
+
 # ----------------------------------------------------------------------
 class Val:
     """Evaluated value: kind in {'mat','scalar','obj','self','none','bool','tuple','other'}."""
@@ -161,7 +165,11 @@ class MatEval:
                     self.assume = saved
                 return True
             if isinstance(st, ast.Assign) and len(st.targets) == 1 and isinstance(st.targets[0], ast.Name):
-                env[st.targets[0].id] = ("lazy", st.value)
+                env[st.targets[0].id] = ("val", self.ev(f, st.value, env)) if st.targets[0].id in _names(st.value) else ("lazy", st.value)
+                continue
+            if isinstance(st, ast.AugAssign) and isinstance(st.target, ast.Name) and st.target.id in env:
+                cur = ast.Name(id=st.target.id, ctx=ast.Load())
+                env[st.target.id] = ("val", self.ev(f, ast.BinOp(left=cur, op=st.op, right=st.value), env))
                 continue
             if isinstance(st, ast.Assign) and isinstance(st.targets[0], ast.Tuple) and isinstance(st.value, ast.Tuple):
                 for tt, vv in zip(st.targets[0].elts, st.value.elts):
@@ -223,6 +231,8 @@ class MatEval:
                 v = env[e.id]
                 if isinstance(v, tuple) and v[0] == "lazy":
                     return self.ev(f, v[1], env)
+                if isinstance(v, tuple) and v[0] == "val":
+                    return v[1]
                 return v
             raise AnalysisError(f"{f.qualname}: unknown name {e.id}")
         if isinstance(e, ast.UnaryOp):
